@@ -91,12 +91,14 @@ class Gen(object):
                 items.append(['nested', self.mk(), self.mk(), self.mk()])
             elif c < 0.97:
                 items.append(['figure', self.mk(), self.mk()])
-            elif c < 0.98:
+            elif c < 0.973:
                 items.append(['footlist', self.mk(), self.mk('fk'), self.mk()])
-            elif c < 0.976:
+            elif c < 0.975:
                 items.append(['tabempty'] + [self.mk() for _ in range(6)])            # rows that begin with an empty cell
-            elif c < 0.98:
+            elif c < 0.977:
                 items.append(['longtable'] + [self.mk() for _ in range(10)])          # two-row first head, body, last foot
+            elif c < 0.98:
+                items.append(self.widetab(r))                                         # a table wide enough to be folded by the Text renderer
             elif c < 0.982:
                 items.append(['footsame', self.mk(), self.mk('fk'), self.mk()])       # two footnotes with the very same text
             elif c < 0.984:
@@ -110,6 +112,24 @@ class Gen(object):
             else:
                 items.append(['quote', self.mk(), self.mk()])
         return items
+
+    def widetab(self, r):
+        """['widetab', rows]; a row is a list of cells; a cell is [head marker, number of filler words, filler
+        length, tail marker or None].  The head marker is the first word of its cell, so head markers stay in
+        row-major (document) order even when the Text renderer folds the cells; the tail markers ('wk') are the
+        last words of their cells and are only counted (exactly once, in the right file), never ordered."""
+        ncols = r.choice([3, 4, 5, 6, 6])
+        flen = r.choice([4, 7, 7, 10, 14])
+        rows = []
+        for _ in range(r.choice([1, 2, 3])):
+            row = []
+            for c in range(ncols):
+                nf = r.choice([0, 1, 2, 3, 5])
+                if c == ncols - 1 and r.random() < 0.6:
+                    nf = 0                                                            # a short last column
+                row.append([self.mk(), nf, flen + r.choice([0, 0, 1, 3]), self.mk('wk') if nf else None])
+            rows.append(row)
+        return ['widetab', rows]
 
     def units(self, levels, li, titles):
         r = self.r
@@ -189,6 +209,10 @@ def render_body(items, out):
             out.append('\\begin{quote}%s\\end{quote}\n\\begin{center}%s\\end{center}\n' % (it[1], it[2]))
         elif k == 'tabempty':
             out.append('\\begin{tabular}{lll} & %s & %s \\\\ %s & %s & %s \\\\ & %s & \\end{tabular}\n' % tuple(it[1:7]))
+        elif k == 'widetab':
+            out.append('\\begin{tabular}{%s}\n%s\\end{tabular}\n' % ('l' * len(it[1][0]), ''.join(
+                ' & '.join(' '.join([cell[0]] + ['x' * cell[2]] * cell[1] + ([cell[3]] if cell[3] else [])) for cell in row) + ' \\\\\n'
+                for row in it[1])))
         elif k == 'longtable':
             out.append('\\begin{longtable}{ll}\\caption{long table}\\\\ %s & %s \\\\ %s & %s \\\\ \\endfirsthead cont & cont \\\\ \\endhead '
                        'contfoot & contfoot \\\\ \\endfoot %s & %s \\\\ \\endlastfoot %s & %s \\\\ %s & %s \\\\ \\end{longtable}\n'
@@ -262,6 +286,12 @@ def body_markers(items):
             b.append(it[1]); f.append(it[2]); b.append(it[3]); f.append(it[2])
         elif k == 'tabempty':
             b.extend(it[1:7])
+        elif k == 'widetab':
+            for row in it[1]:
+                for cell in row:
+                    b.append(cell[0])
+                    if cell[3]:
+                        b.append(cell[3])
         elif k == 'longtable':
             b.extend(it[1:11])            # first head (2 rows), body (2 rows), last foot - the continuation head/foot carry no marker
         elif k == 'abstract':
@@ -499,14 +529,19 @@ class _Text(html.parser.HTMLParser):
             self.out.append(data)
 
 
-MARK = re.compile(r'\b(mk|fk|vk)(\d+)\b')
+MARK = re.compile(r'\b(mk|fk|vk|wk)(\d+)\b')
 
 
-def markers_of(htmltext):
+MARK_ABUT = re.compile(r'(mk|fk|vk|wk)(\d+)')
+
+
+def markers_of(htmltext, abut=False):
+    """abut: the Text renderer may print two folded table cells with no blank between them ('mk14mk16'): the text
+    is all there, so markers are then recognised without word boundaries (fillers are runs of 'x', never a prefix)."""
     p = _Text()
     p.feed(htmltext)
     text = ' '.join(p.out)
-    return [m.group(0) for m in MARK.finditer(text)]
+    return [m.group(0) for m in (MARK_ABUT if abut else MARK).finditer(text)]
 
 
 def prepare():
@@ -548,7 +583,7 @@ def judge(doc, cfg, out, info):
                  'detail': {'exception': out.get('exception'), 'message': out.get('message'),
                             'traceback': out.get('traceback', '')[-1000:]}}, None)
     files = out['files']
-    per_file = dict((name, markers_of(text)) for name, text in files.items())
+    per_file = dict((name, markers_of(text, abut=(cfg['renderer'][0] == 'Text'))) for name, text in files.items())
     groups = expected_groups(doc, cfg['split'], cfg['single'], endnotes=(cfg['renderer'][0] == 'Text'))
     allm = []
     for g in groups:
@@ -567,8 +602,16 @@ def judge(doc, cfg, out, info):
             cls = 'repeated-in-file' if len(set(where)) == 1 else 'repeated-across-files'
             return ({'sig': 'C13|%s|%s' % (cls, m[:2]), 'detail': {'marker': m, 'where': where}}, None)
     # S1 + order: the partition of markers into files is the expected one
-    exp_seqs = sorted([g[0] + g[1] for g in groups])
-    got_seqs = sorted(per_file.values())
+    if cfg['renderer'][0] == 'Text':
+        # a folded text table prints line k of every cell of a row side by side: the tail markers ('wk') of wide
+        # cells are then legitimately not in document order; they are counted (S2) and placed (membership), not ordered
+        def _fold(seq):
+            return [m for m in seq if not m.startswith('wk')] + sorted(m for m in seq if m.startswith('wk'))
+    else:
+        def _fold(seq):
+            return list(seq)
+    exp_seqs = sorted([_fold(g[0] + g[1]) for g in groups])
+    got_seqs = sorted(_fold(v) for v in per_file.values())
     if len(per_file) != len(groups):
         return ({'sig': 'C13|partition|file-count', 'detail': {'expected_files': len(groups), 'written': sorted(per_file),
                                                                  'split': cfg['split'], 'template': cfg['template']}}, None)
@@ -788,10 +831,11 @@ def enumerate_cases(base_seed, tier):
     for k, rend in enumerate([['HTML5', 'default'], ['HTML5', 'minimal'], ['XHTML', 'default'], ['Text', 'default']]):
         for split in ((0, 1, 2) if tier == 'thorough' else (1,)):
             g = Gen(None)
+            rw = random.Random(core.h64('C13-wide', base_seed, k, split))
             secs = []
             for shapes in (['foottext', 'footquote', 'footsame'], ['footmarktext', 'foottext'], ['footquote', 'footsame']):
                 body = [['para', [g.mk()]]] + [[sh, g.mk(), g.mk('fk'), g.mk()] for sh in shapes] + [['footpara', g.mk(), g.mk('fk'), g.mk()]]
-                body += [['tabempty'] + [g.mk() for _ in range(6)], ['longtable'] + [g.mk() for _ in range(10)]]
+                body += [['tabempty'] + [g.mk() for _ in range(6)], ['longtable'] + [g.mk() for _ in range(10)], g.widetab(rw)]
                 secs.append({'kind': 'section', 'level': 1, 'star': False, 'label': None, 'title': g.mk('tk'), 'body': body, 'children': []})
             fdoc = {'cls': 'article', 'body': [['footquote', g.mk(), g.mk('fk'), g.mk()]], 'children': secs}
             r = random.Random(core.h64('C13-foot', base_seed, k, split))
